@@ -103,13 +103,35 @@ def battery(rng=None, size=None):
     for m in ((4, 4), (6, 8), (5, 4), (3, 3), (0, 4), (12, 16)):
         for f in ("is_valid", "is_compound", "is_simple", "is_asymmetrical"):
             q("meter", f, list(m))
+    # object-level queries with default arguments (answered by fresh objects every time)
+    for p in (0, 33, 57, 60, 69, 100, 127):
+        q("obj", "note_to_hertz", p), q("obj", "note_to_shorthand", p)
+    for hz in (27.5, 261.63, 440.0, 880.0, 4186.0):
+        q("obj", "note_from_hertz", hz)
+    for ch in ("Am7", "C", "F#dim7"):
+        q("obj", "nc_from_chord", ch), q("obj", "nc_determine", ch)
     if rng is not None:
         rng.shuffle(Q)
         Q = Q[:size or len(Q)]
     return Q
 
 
+def _obj_query(name, a):
+    from mingus.containers import Note, NoteContainer
+    if name == "note_to_hertz":
+        return Note(a[0]).to_hertz()
+    if name == "note_to_shorthand":
+        return Note(a[0]).to_shorthand()
+    if name == "note_from_hertz":
+        return repr(Note().from_hertz(a[0]))
+    if name == "nc_from_chord":
+        return repr(NoteContainer().from_chord(a[0]))
+    return NoteContainer().from_chord(a[0]).determine(True)
+
+
 def evaluate(spec, mods):
+    if spec["m"] == "obj":
+        return _obj_query(spec["f"], spec["a"]), list(spec["a"])
     f = getattr(mods[spec["m"]], spec["f"])
     args = copy.deepcopy(spec["a"])
     if spec["m"] == "meter":
@@ -221,7 +243,7 @@ def shards(tier, seed):
     K = 60 if tier == "quick" else 600
     parts = 10 if tier == "quick" else 16
     for i in range(parts):
-        out.append({"name": "histories-%d" % i, "kind": "hist", "k": K // parts, "calls": [200, 600] if tier == "quick" else [200, 2000],
+        out.append({"name": "histories-%d" % i, "kind": "hist", "cold": True, "k": K // parts, "calls": [200, 600] if tier == "quick" else [200, 2000],
                     "weight": 8})
     parts = 8 if tier == "quick" else 16
     for i in range(parts):
@@ -312,6 +334,8 @@ def run(shard, ctx):
                 done += 1
                 if done % 97 == 0:
                     gc.collect()
+            from rv import history
+            history.stir(sub)        # helpers called directly, object methods with non-default arguments
             got = ask(Q, mods)
             bad, ex = diff_answers(ref, got, Q)
             sub.check("history: every battery answer after a random call history equals the cold interpreter's answer", not bad,
@@ -586,6 +610,18 @@ def run_copies(ctx):
     s.find_frets(Note("E", 4))
     s.tuning.append(Note("C", 1))
     ctx.check("copies: the tuning list passed to StringTuning is not modified", arg == tun, {"tuning": tun}, tun, arg, mechanism="arg:StringTuning")
+    ml = [3, 4]
+    b1, b2 = Bar("C", ml), Bar("G", ml)
+    ml[0] = 6
+    ml.append(9)
+    ctx.check("copies: a list passed as a meter is neither kept nor modified", tuple(b1.meter) == (3, 4) and tuple(b2.meter) == (3, 4) and b1.length == 0.75,
+              {"meter_list": [3, 4]}, [(3, 4), 0.75], [b1.meter, b2.meter, b1.length], mechanism="arg:Bar-meter")
+    b3 = Bar("C", (4, 4))
+    ml2 = [2, 4]
+    b3.set_meter(ml2)
+    ml2[0] = 5
+    ctx.check("copies: a list passed to set_meter is neither kept nor modified", tuple(b3.meter) == (2, 4) and ml2 == [5, 4], {"meter_list": [2, 4]},
+              (2, 4), b3.meter, mechanism="arg:set_meter")
     names = ["C", "E", "G"]
     arg = list(names)
     b = Bar()
